@@ -689,9 +689,25 @@ def w_dec_pkcs8(spec, ctx, L, H):
     ctx.op("dec_pkcs8", "structural")
     import time
     t_end = ctx.t0 + (ctx.deadline - ctx.t0) * 0.75
-    gens = [(e, (u0, u1), M.node_mutations(e.data, rng, ctx.tier)) for e, _ in clear]
-    gens += [(e, (u1, p1 if sc == 1 else p2, u0), M.node_mutations(e.data, rng, ctx.tier)) for e, _, sc in enc]
+    def offer_mut(ds, kind, mut, n):
+        for d in ds[:2]:
+            go(d, mut, kind)
+        if len(ds) > 2 and n % 4 == 0:
+            go(ds[2], mut, kind)
     n = 0
+    rest, seen = [], set()
+    for e, ds in [(e, (u0, u1)) for e, _ in clear] + [(e, (u1, p1 if sc == 1 else p2, u0)) for e, _, sc in enc]:
+        fam = e.label if (e.enc is None or e.producer == "ref" or ctx.tier == "thorough") else "scrypt" if "scrypt" in e.label else "pbkdf2"
+        if fam not in seen:
+            seen.add(fam)
+            for kind, mut in M.node_mutations(e.data, rng, ctx.tier, parts=("nodes",)):
+                n += 1
+                offer_mut(ds, kind, mut, n)
+        else:
+            rest.append((e, ds, M.node_mutations(e.data, rng, ctx.tier, parts=("nodes",))))
+        rest.append((e, ds, M.node_mutations(e.data, rng, ctx.tier, parts=("prefix", "bitflip"))))
+    ctx.count("structural_mutations_complete_part", n)
+    gens = rest
     while gens and time.time() < t_end:
         alive = []
         for e, ds, g in gens:
@@ -701,10 +717,7 @@ def w_dec_pkcs8(spec, ctx, L, H):
                 except StopIteration:
                     break
                 n += 1
-                for d in ds[:2]:
-                    go(d, mut, kind)
-                if len(ds) > 2 and n % 4 == 0:
-                    go(ds[2], mut, kind)
+                offer_mut(ds, kind, mut, n)
             else:
                 alive.append((e, ds, g))
         gens = alive
